@@ -123,6 +123,8 @@ enum TaskControl {
 
 impl TaskHandle {
     pub(crate) fn subscribe(&self) -> broadcast::Receiver<Event> {
+        #[cfg(feature = "verif")]
+        rip_kernel::verif::yield_point("task_subscribe");
         self.sender.subscribe()
     }
 
@@ -519,6 +521,8 @@ impl TaskEmitter {
             kind,
         };
         *seq += 1;
+        #[cfg(feature = "verif")]
+        rip_kernel::verif::yield_async("task_emit:before_record").await;
 
         // Record before publishing (see `session::emit_event`): a subscriber that attaches between
         // the two steps would otherwise miss the frame.
